@@ -11,6 +11,23 @@ CHECKS = {
         'note': TB + 'Not decided: limit_denominator optimality, float round-trip; i64 overflow excluded by the quantifier.',
         'technique': 'encapsulation enumeration over HIR+MIR, abstract interpretation (template constraints), operator-impl sibling rule',
     },
+    'C15': {
+        'text': 'Static: Gate::adjoint agrees with the adjoint table derived from reference gate semantics (same Hadamard set, negated phase) and '
+                'Circuit::adjoint reverses and adjoints every gate; the number of gates pushed by push_basic_gates equals num_basic_gates for every '
+                'kind and arity 0..8, emitted kinds are basic, the constant CCZ/Toffoli sequences found in the source multiply out to the reference '
+                'matrices, the parity-phase expansion is a CNOT ladder; the five Add/AddAssign impls append in order; CircuitStats increments exactly '
+                'one size and one class counter per gate on every path.',
+        'note': TB + 'Reference gate semantics in refs/gates.py. Not decided: equality of maps for whole circuits.',
+        'technique': 'dispatch-table extraction and agreement, symbolic count of emissions per path, constant-sequence evaluation, path partition rule',
+    },
+    'C17': {
+        'text': 'Static: in gauss_helper every self.row_add(a,b) is immediately mirrored by x.row_add(a,b) with identical operands, the matrix is '
+                'written only through row_add, and a != b at every site by a recognised justification (guard, excluding range, chunk-map idiom); '
+                'inverse returns Some only under the square test and rank == rows of a full reduction whose proxy started as the identity; '
+                'row_add/col_add/row_swap/col_swap follow the trait doc and are transposes of each other; Mul is the F2 product and the forwarders keep operand order.',
+        'note': TB + 'Not decided: that the result is a (reduced) echelon form, rank and null-space values, algebraic laws as value equalities.',
+        'technique': 'mirrored-operation pairing, who-may-write, return-path condition analysis, sibling descriptors',
+    },
 }
 
 _PENDING = 'check under construction in this round (rules designed in DESIGN.md section 5; not yet registered)'
